@@ -33,6 +33,8 @@ SPECS = [
     {'conv': 'ugrid', 'ny': 3, 'nx': 4, 'split': [[0, 0], [2, 3]], 'tables': ['edge_node']},
     {'conv': 'ugrid', 'ny': 3, 'nx': 4, 'split': [[1, 1]], 'merge': [[2, 0]], 'tables': ['edge_node', 'face_edge'], 'start_index': 1},
     {'conv': 'ugrid', 'ny': 3, 'nx': 4, 'split': [[1, 2]], 'tables': ['edge_node', 'edge_face'], 'fill': 'nan'},
+    # one-based tables whose file used 0 for missing entries (below the index range of a one-based table), decoded by xarray: NaN + the encoding
+    {'conv': 'ugrid', 'ny': 3, 'nx': 4, 'split': [[1, 2]], 'tables': ['edge_node', 'face_edge', 'face_face'], 'start_index': 1, 'fill': 'nan', 'decoded_fill': 0},
     {'conv': 'ugrid', 'ny': 3, 'nx': 4, 'split': [[0, 1]], 'tables': ['face_face'], 'start_index': 1},
     {'conv': 'ugrid', 'ny': 3, 'nx': 3, 'split': [[0, 0]], 'tables': ['edge_node', 'face_edge', 'edge_face', 'face_face'], 'start_index': 1, 'fill': 'int_fill'},
     {'conv': 'ugrid', 'ny': 3, 'nx': 4, 'split': [[2, 2]], 'tables': ['edge_node'], 'coords_as': 'coords', 'face_coords': True},
